@@ -14,6 +14,7 @@ configuration, and EVERY list of chunks whose concatenation is the encoded body
 (one-byte chunks and empty chunks included).
 -/
 import BaizeVerif.Lemmas.MultipartHelper
+import BaizeVerif.Lemmas.MultipartHeaders
 
 namespace Baize.Multipart
 
@@ -105,6 +106,148 @@ theorem formAccessor_exact (asgi : Bool) (contentType : List Nat) (b pre epi : B
         | nil => simpa using ih
         | cons x c => simp [ih]
     simp [this]
+
+/-! ### The header layer: what an encoder writes is what the decoder reports
+
+Stated for the latin-1 charset, where bytes and code points coincide (for utf-8
+the same holds with the codec as a parameter: `headerEvent_rendered` in
+`Lemmas/MultipartHeaders.lean` takes the decoded text of every line as a
+hypothesis). -/
+
+/-- a further header line `k: v` of a part -/
+structure ExtraOK (k v : Bytes) : Prop where
+  bytesOK : LineBytesOK (k ++ 58 :: 32 :: v)
+  noColon : ∀ x ∈ k, x ≠ 58
+  keyStrip : stripBy isPySpace k = k
+  valueStrip : stripBy isPySpace (32 :: v) = v
+
+/-- name / filename as the property allows them: no quote, no backslash, no line break -/
+def NameOK (n : Bytes) : Prop := QuoteFree n ∧ ∀ x ∈ n, isLB x = false
+
+/-- the header list the decoder must report -/
+def renderedHeaders (N : Bytes) (F : Option Bytes) (extra : List (Bytes × Bytes)) : List (List Nat × List Nat) :=
+  (cdName, cdValue N F) :: extra.map fun kv => (lowerAscii kv.1, kv.2)
+
+/-- a part as an encoder writes it: `Content-Disposition: form-data; name="N"[; filename="F"]`
+then the extra header lines; it denotes a field (no filename) or a file -/
+def renderedPart (N : Bytes) (F : Option Bytes) (extra : List (Bytes × Bytes)) (content : Bytes) : Part :=
+  { hdr := joinLines ((cdHeaderName ++ 58 :: 32 :: cdValue N F) :: extra.map fun kv => kv.1 ++ 58 :: 32 :: kv.2),
+    content := content,
+    ev := match F with
+      | none => .field (some N) (renderedHeaders N F extra)
+      | some f => .file (some N) f (renderedHeaders N F extra) }
+
+private def AllNoLB (l : Bytes) : Prop := ∀ x ∈ l, isLB x = false
+
+private theorem allNoLB_append {a b : Bytes} (ha : AllNoLB a) (hb : AllNoLB b) : AllNoLB (a ++ b) := by
+  intro x hx
+  rw [List.mem_append] at hx
+  rcases hx with hx | hx
+  · exact ha x hx
+  · exact hb x hx
+
+private theorem allNoLB_cons {c : Nat} {l : Bytes} (hc : isLB c = false) (hl : AllNoLB l) : AllNoLB (c :: l) := by
+  intro x hx
+  rw [List.mem_cons] at hx
+  rcases hx with rfl | hx
+  · exact hc
+  · exact hl x hx
+
+private theorem cdValue_noLB (N : Bytes) (F : Option Bytes) (hN : NameOK N) (hF : ∀ f, F = some f → NameOK f) :
+    AllNoLB (cdValue N F) := by
+  have hfd : AllNoLB fdBytes := by unfold AllNoLB; decide
+  have hnk : AllNoLB nameKey := by unfold AllNoLB; decide
+  have hfk : AllNoLB filenameKey := by unfold AllNoLB; decide
+  have hq : AllNoLB [34] := by unfold AllNoLB; decide
+  cases F with
+  | none =>
+    exact allNoLB_append hfd (allNoLB_cons (by decide) (allNoLB_cons (by decide)
+      (allNoLB_append (allNoLB_append hnk (allNoLB_cons (by decide) (allNoLB_cons (by decide) hN.2))) hq)))
+  | some f =>
+    have hf : AllNoLB f := (hF f rfl).2
+    exact allNoLB_append hfd (allNoLB_cons (by decide) (allNoLB_cons (by decide)
+      (allNoLB_append (allNoLB_append hnk (allNoLB_cons (by decide) (allNoLB_cons (by decide) hN.2)))
+        (allNoLB_cons (by decide) (allNoLB_cons (by decide) (allNoLB_cons (by decide)
+          (allNoLB_append (allNoLB_append hfk (allNoLB_cons (by decide) (allNoLB_cons (by decide) hf))) hq)))))))
+
+/-- the value starts with `f` and ends with the closing quote -/
+private theorem cdValue_ends (N : Bytes) (F : Option Bytes) : ∃ m, cdValue N F = 102 :: m ++ [34] := by
+  cases F with
+  | none =>
+    exact ⟨[111, 114, 109, 45, 100, 97, 116, 97] ++ 59 :: 32 :: (nameKey ++ 61 :: 34 :: N), by
+      simp [cdValue, fdBytes]⟩
+  | some f =>
+    exact ⟨[111, 114, 109, 45, 100, 97, 116, 97] ++ 59 :: 32 :: (nameKey ++ 61 :: 34 :: N ++ 34 :: 59 :: 32 ::
+        (filenameKey ++ 61 :: 34 :: f)), by
+      simp [cdValue, fdBytes]⟩
+
+private theorem cd_line_ok (N : Bytes) (F : Option Bytes) (hN : NameOK N) (hF : ∀ f, F = some f → NameOK f) :
+    HLineOK .latin1 ⟨cdHeaderName ++ 58 :: 32 :: cdValue N F, cdHeaderName, cdValue N F⟩ := by
+  obtain ⟨m, hm⟩ := cdValue_ends N F
+  have hcdn : AllNoLB cdHeaderName := by unfold AllNoLB; decide
+  have hnl : AllNoLB (cdHeaderName ++ 58 :: 32 :: cdValue N F) :=
+    allNoLB_append hcdn (allNoLB_cons (by decide) (allNoLB_cons (by decide) (cdValue_noLB N F hN hF)))
+  have hshape : cdHeaderName ++ 58 :: 32 :: cdValue N F =
+      67 :: ([111,110,116,101,110,116,45,68,105,115,112,111,115,105,116,105,111,110] ++ 58 :: 32 :: 102 :: m) ++ [34] := by
+    rw [hm]; simp [cdHeaderName]
+  refine ⟨⟨⟨67, _, 34, hshape, by decide, by decide⟩, hnl⟩, rfl, ?_, ?_, ?_⟩
+  · show ∀ x ∈ cdHeaderName, x ≠ 58
+    decide
+  · show stripBy isPySpace cdHeaderName = cdHeaderName
+    decide
+  · show stripBy isPySpace (32 :: cdValue N F) = cdValue N F
+    rw [stripBy_cons_space isPySpace 32 _ (by decide), hm]
+    exact stripBy_ends isPySpace 102 34 m (by decide) (by decide)
+
+/-- **C01.5 — the header layer is exact.**  A part written by an encoder is a
+well-formed part (`PartOK`) that denotes exactly its name, filename and headers. -/
+theorem rendered_part_ok (b : Bytes) (N : Bytes) (F : Option Bytes) (extra : List (Bytes × Bytes))
+    (content : Bytes) (hN : NameOK N) (hF : ∀ f, F = some f → NameOK f)
+    (hextra : ∀ kv ∈ extra, ExtraOK kv.1 kv.2)
+    (hkeys : (cdName :: extra.map (fun kv => lowerAscii kv.1)).Nodup)
+    (hfree : Free (marker b) content) :
+    PartOK b .latin1 (renderedPart N F extra content) := by
+  let lines : List HLine := extra.map fun kv => ⟨kv.1 ++ 58 :: 32 :: kv.2, kv.1, kv.2⟩
+  have hlines : ∀ l ∈ lines, HLineOK .latin1 l := by
+    intro l hl
+    simp only [lines, List.mem_map] at hl
+    obtain ⟨kv, hkv, rfl⟩ := hl
+    have h := hextra kv hkv
+    exact ⟨h.bytesOK, rfl, h.noColon, h.keyStrip, h.valueStrip⟩
+  have hbytes : (extra.map fun kv => kv.1 ++ 58 :: 32 :: kv.2) = lines.map (·.bytes) := by
+    simp [lines, List.map_map, Function.comp_def]
+  have hcd := cd_line_ok N F hN hF
+  refine ⟨?_, hfree, ?_, ?_⟩
+  · -- HdrOK
+    show HdrOK (joinLines _)
+    apply hdrOK_joinLines
+    intro x hx
+    rw [List.mem_cons] at hx
+    rcases hx with rfl | hx
+    · exact hcd.bytesOK
+    · rw [hbytes, List.mem_map] at hx
+      obtain ⟨l, hl, rfl⟩ := hx
+      exact (hlines l hl).bytesOK
+  · -- denotes
+    show headerEvent .latin1 (joinLines _) = _
+    rw [hbytes]
+    have := headerEvent_rendered .latin1 N F _ lines hN.1 (fun f hf => (hF f hf).1) hcd hlines
+      (by simpa [lines, List.map_map, Function.comp_def] using hkeys)
+    rw [this]
+    simp only [renderedPart, renderedHeaders, lines, List.map_map, Function.comp_def]
+    cases F <;> rfl
+  · show IsPartEv (renderedPart N F extra content).ev
+    simp only [renderedPart]
+    cases F <;> exact trivial
+
+/-- what a rendered part contributes to the result: for a field its name and its
+text (latin-1: the content itself), for a file name, filename, headers and content -/
+theorem itemOf_rendered (N : Bytes) (F : Option Bytes) (extra : List (Bytes × Bytes)) (content : Bytes) :
+    itemOf .latin1 (renderedPart N F extra content) =
+      some (match F with
+        | none => Item.field (some N) content
+        | some f => Item.file (some N) f (renderedHeaders N F extra) content) := by
+  cases F <;> rfl
 
 /-! ### Non-vacuity: a concrete form meets the hypotheses, and the theorem's
 conclusion is what the model computes on a nasty chunking -/
